@@ -9,6 +9,7 @@ import (
 	cidlink "github.com/ipld/go-ipld-prime/linking/cid"
 	"github.com/storacha/go-ucanto/core/delegation"
 	"github.com/storacha/go-ucanto/core/ipld/block"
+	"github.com/storacha/go-ucanto/did"
 	"math/rand"
 	"sort"
 	"strings"
@@ -159,14 +160,24 @@ func sharedProvider(can, kind string) server.ServiceMethod[ipld.Builder] {
 func (b *Batch) newServer(obs *BatchObs) (server.ServerView, error) {
 	w := b.W
 	dummy := &Obs{}
-	opts := []server.Option{
+	var opts []server.Option
+	if (b.ID/2+b.ID)%2 == 1 {
+		// every option given TWICE, a permissive / useless value first: the configured (last) one must be in force
+		opts = append(opts,
+			server.WithCanIssue(func(ucan.Capability[any], did.DID) bool { return true }),
+			server.WithRevocationChecker(func(validator.Authorization[any]) validator.Revoked { return nil }),
+			server.WithProofResolver(validator.ProofUnavailable),
+			server.WithPrincipalResolver(validator.FailDIDKeyResolution),
+		)
+	}
+	opts = append(opts,
 		server.WithCanIssue(w.canIssue),
 		server.WithRevocationChecker(w.checker(dummy)),
 		server.WithProofResolver(w.resolver()),
 		server.WithPrincipalParser(w.parser(dummy)),
 		server.WithPrincipalResolver(w.keyResolver()),
 		server.WithErrorHandler(func(err server.HandlerExecutionError[any]) {}),
-	}
+	)
 	var r *rand.Rand
 	if b.Perturb != 0 {
 		r = rand.New(rand.NewSource(b.Perturb))
@@ -568,8 +579,15 @@ func randomBatch(r *rand.Rand, id int, seed int64, maxInv int, dup bool) *Batch 
 	}
 	n := 1 + r.Intn(maxInv)
 	rsa := false
+	// the server's can-issue policy: the default (self-issued), or an owner table under which a principal does NOT own
+	// the resource named after it unless the table says so
+	policy := "self"
+	if id%3 == 2 {
+		policy = "owners"
+		cw.Ctx.SelfIssued = false
+	}
 	for i := 0; i < n; i++ {
-		k := chainKnobs{MaxDepth: 3, Defects: []int{0, 0, 0, 1, 1}, Decoys: 1, RSA: true, Resolver: true, Caveats: true, Revocation: r.Intn(4) == 0}
+		k := chainKnobs{MaxDepth: 3, Defects: []int{0, 0, 0, 1, 1}, Decoys: 1, RSA: true, Resolver: true, Caveats: true, Revocation: r.Intn(4) == 0, ForcePolicy: policy}
 		w, info := chainWorldIn(r, id*100+i, seed, k, cast, fmt.Sprintf("i%d_", i))
 		rsa = rsa || info.RSA
 		cw.Specs = append(cw.Specs, w.Specs...)
